@@ -68,8 +68,10 @@ class Scripted:
             B = len(actions)
             rows = [self.one(actions[b], b) for b in range(B)]
             kws = {"k": [("kw", b) for b in range(B)]} if self.kw else None
+            if self.kw == 2: kws["j"] = [("j", 2 * b) for b in range(B)]      # two keys: the collation must keep the columns apart
+            rowkw = lambda b: ({"k": ("kw", b), "j": ("j", 2 * b)} if self.kw == 2 else {"k": ("kw", b)})
             if self.order == "row":
-                return [(r if not self.kw else ((r, {"k": ("kw", b)}) if self.fmt not in ("AP",) else (r[0], r[1], {"k": ("kw", b)}))) for b, r in enumerate(rows)]
+                return [(r if not self.kw else ((r, rowkw(b)) if self.fmt not in ("AP",) else (r[0], r[1], rowkw(b)))) for b, r in enumerate(rows)]
             # column major
             if self.fmt in ("dA", "dAP", "dPMF"):
                 key = {"dA": "action", "dAP": "action_prob", "dPMF": "pmf"}[self.fmt]
@@ -164,6 +166,7 @@ def run_point(ctx, kind, n, acts, fmt, kw, batch, order, model_reqs):
         else:
             ea, ep = expect_one(it, acts, None)
         ekw = ({"k": ("kw", b if batch is not None else 0)} if kw else {})
+        if kw == 2: ekw["j"] = ("j", 2 * b)
         member = any(a is x or (type(a) == type(x) and a == x) for x in acts) or any(a == x for x in acts)
         if not member:
             ctx.fail(["predict", "not-an-offered-action", fmt, kind], "returned action %r is not one of %r on %s" % (a, acts, case), case); return
@@ -178,6 +181,9 @@ def run_point(ctx, kind, n, acts, fmt, kw, batch, order, model_reqs):
     if kw and lrn.learned:
         rec = lrn.learned[0][2]
         if "k" not in rec: ctx.fail(["learn", "kwargs-lost"], "learn received kwargs %r on %s" % (rec, case), case); return
+        if kw == 2 and batch is not None:
+            want = {"k": [("kw", b) for b in range(B)], "j": [("j", 2 * b) for b in range(B)]}
+            if {k: list(v) for k, v in rec.items()} != want: ctx.fail(["learn", "kwargs-changed"], "learn received kwargs %r, predict returned %r on %s" % (rec, want, case), case); return
     ctx.sample(dict(case=case, result=repr(got)[:200]), cap=6)
     if batch is None:
         en = Enc15(lrn.offered); model_reqs.append((dict(case), en, got[0], [[en.enc(a) for a in lrn.offered], en.enc(lrn.last_pred), seed]))
@@ -194,6 +200,7 @@ def run(ctx):
                 for batch in (1, 2, n, n + 1):
                     for order in ("row", "col"):
                         pts.append((kind, n, acts, fmt, kw, batch, order))
+                        if kw and batch >= 2: pts.append((kind, n, acts, fmt, 2, batch, order))
     if ctx.tier == "quick" and not ctx.escalated:
         ctx.rng.shuffle(pts); pts = [p for p in pts if p[5] is None] + [p for p in pts if p[5] is not None][:1200]
     model_reqs = []
